@@ -7,7 +7,9 @@ DRV = os.path.join(HERE, '..', 'lean', '.lake', 'build', 'bin', 'h2drv')
 
 
 class ModelProc(object):
-    def __init__(self, path=DRV):
+    def __init__(self, path=None):
+        # H2_DRV: the driver built against the regenerated definitions (check, when a bridge theorem does not hold)
+        path = path or os.environ.get('H2_DRV') or DRV
         self.p = subprocess.Popen([path], stdin=subprocess.PIPE, stdout=subprocess.PIPE, bufsize=0)
 
     def send(self, line):
